@@ -84,7 +84,7 @@ def fault_window_ns(f: dict) -> tuple[int, int]:
     if f["type"] == "RandomPartition":  # no window of its own: live from the start for the whole run
         return 0, INF
     s = sec_to_ns(f["start_ms"] / 1000.0)
-    e = INF if f.get("end_ms") is None else sec_to_ns(f["end_ms"] / 1000.0)
+    e = INF if f.get("end_ms") is None else sec_to_ns(f["end_ms"] / 1000.0 + (4e-10 if f.get("sub_ns") else 0.0))
     return s, e
 
 
@@ -300,7 +300,7 @@ def _mk_fault(f: dict):
     if t == "RandomPartition":
         return RandomPartition(nodes=list(f["nodes"]), mtbf=f["mtbf_ms"] / 1000.0, mttr=f["mttr_ms"] / 1000.0, seed=f["seed"])
     s = f["start_ms"] / 1000.0
-    e = None if f.get("end_ms") is None else f["end_ms"] / 1000.0
+    e = None if f.get("end_ms") is None else f["end_ms"] / 1000.0 + (4e-10 if f.get("sub_ns") else 0.0)
     if t == "CrashNode":
         return CrashNode(f["target"], at=s, restart_at=e)
     if t == "PauseNode":
@@ -320,11 +320,25 @@ def _once(t_ns, name, fn):
     return Event.once(time=Instant(t_ns), event_type=name, fn=fn, daemon=True)
 
 
-def execute(case: dict, faults: list | None = None) -> dict:
-    """Run the case (optionally with a replaced fault list) and return raw observations."""
+def execute(case: dict, faults: list | None = None, reuse: bool = True) -> dict:
+    """Run the case (optionally with a replaced fault list) and return raw observations.
+
+    With case["reuse_runs"] = N > 1 the world is built N times from fresh, same-named objects while ONE
+    FaultSchedule object (and the same fault spec objects) is attached to every Simulation in turn - the
+    pattern of a sweep sharing one fault plan.  The first run's observations are returned; the later
+    runs' observations are in obs["later_runs"].
+    """
+    faults = case.get("faults", []) if faults is None else faults
+    shared: dict = {}
+    obs = _one_run(case, faults, shared)
+    n = int(case.get("reuse_runs", 1)) if (reuse and faults) else 1
+    obs["later_runs"] = [_one_run(case, faults, shared) for _ in range(max(0, n - 1))]
+    return obs
+
+
+def _one_run(case: dict, faults: list, shared: dict) -> dict:
     quiet_library_logging()
     _random.seed(case.get("rand_seed", 20260922))  # ExponentialLatency links sample from the global RNG
-    faults = case.get("faults", []) if faults is None else faults
     horizon = case["horizon_ns"]
     obs: dict = {
         "node_log": {},
@@ -426,13 +440,17 @@ def execute(case: dict, faults: list | None = None) -> dict:
         entities.append(worker)
 
     # ---- fault schedule and the three cancellation points
-    fs = FaultSchedule()
-    handles = []
-    for f in faults:
-        h = fs.add(_mk_fault(f))
-        handles.append(h)
-        if f.get("cancel") == "pre":
-            h.cancel()
+    if "fs" in shared:  # a schedule that has already been attached to an earlier Simulation
+        fs, handles = shared["fs"], shared["handles"]
+    else:
+        fs = FaultSchedule()
+        handles = []
+        for f in faults:
+            h = fs.add(_mk_fault(f))
+            handles.append(h)
+            if f.get("cancel") == "pre":
+                h.cancel()
+        shared["fs"], shared["handles"] = fs, handles
     sim = Simulation(entities=entities, end_time=Instant(horizon), fault_schedule=fs if faults else None)
     for f, h in zip(faults, handles):
         c = f.get("cancel")
